@@ -77,18 +77,29 @@ func (d *Ar) Next() (*ArEntry, error) {
 	line := make([]byte, 60)
 
 	count, err := d.in.ReadAt(line, d.offset)
-	if err != nil {
-		return nil, err
+	if count == 0 && err == io.EOF {
+		return nil, io.EOF
 	}
 	if count == 1 && line[0] == '\n' {
 		return nil, io.EOF
 	}
 	if count != 60 {
+		if err != nil && err != io.EOF {
+			return nil, err
+		}
 		return nil, fmt.Errorf("Caught a short read at the end")
 	}
 	entry, err := parseArEntry(line)
 	if err != nil {
 		return nil, err
+	}
+
+	if entry.Size > 0 {
+		/* The data has to be there, too. */
+		last := make([]byte, 1)
+		if n, _ := d.in.ReadAt(last, d.offset+int64(count)+entry.Size-1); n != 1 {
+			return nil, fmt.Errorf("Member %s is truncated", entry.Name)
+		}
 	}
 
 	entry.Data = io.NewSectionReader(d.in, d.offset+int64(count), entry.Size)
